@@ -8,7 +8,7 @@ from .. import symtrace as st, common
 from ..gen_lean import Def
 from ..runner import Corr, Failure
 
-LEAN_MODULES = ['SvgVerif.Props.C08']
+LEAN_MODULES = ['SvgVerif.Props.C08', 'SvgVerif.Props.C08Arc']
 
 
 def _cubic_with_critical(r1, r2, k, c):
@@ -109,7 +109,7 @@ GEN = {'C08': gen_defs}
 
 ASSUMPTIONS = [
     'math.sqrt is an oracle in the closed form; np.roots is the oracle when the cubic term of a coordinate vanishes and for quadratics (the theorem there would be conditional on "the roots returned contain every interior zero of the derivative"; that route is sampled)',
-    'Arc.bbox (atan candidates, k in -4..4) is covered by the sampler only',
+    'Arc.bbox: the model (Model.ArcBBox) is tied by exact correspondence on rationals with stand-ins for cos/sin/tan/atan/pi; the theorem arcBbox_contains_tight assumes start = point(0), end = point(1), |theta| <= 180, |delta| <= 360 (C04) and treats the float tests cos(phi) == 0 / sin(phi) == 0 as exact',
     'containment/tightness are exact-arithmetic statements over R; float rounding is sampled with the tolerances of the statement',
 ]
 
@@ -129,6 +129,81 @@ def _exact_sqrt(x):
 
 class _NoRoots(Exception):
     pass
+
+
+def _standins():
+    """exact stand-ins for the math functions Arc.bbox / Arc.point call (the Lean driver has the same ones)"""
+    from ..exactnum import Q
+
+    def q(x):
+        return x if isinstance(x, Q) else Q(Fr(x))
+
+    def c(x):
+        u = q(x) / 2
+        return (1 - u * u) / (1 + u * u)
+
+    def s(x):
+        u = q(x) / 2
+        return 2 * u / (1 + u * u)
+    return {'cos': c, 'sin': s, 'tan': lambda x: s(x) / c(x), 'atan': lambda y: q(y) / (1 + abs(q(y))) * Fr(11, 7), 'pi': Q(Fr(22, 7))}
+
+
+def _correspond_arc(ctx):
+    """the REAL Arc.bbox (and Arc.point inside it) on exact rationals against Model.ArcBBox.bbox"""
+    import math as _math
+    from ..exactnum import Q, QC, qstr
+    P = ctx.spt.path
+    r = ctx.rng('corr/arcbbox')
+    c = Corr('Arc.bbox')
+    F = _standins()
+    lines, impl = [], []
+    rq = lambda lo=-6, hi=6, ds=(1, 1, 2, 4): Fr(r.randint(lo, hi), r.choice(ds))
+    saved = (P.cos, P.sin, P.pi, _math.atan, _math.tan)
+    try:
+        P.cos, P.sin, P.pi = F['cos'], F['sin'], F['pi']
+        _math.atan, _math.tan = F['atan'], F['tan']
+        for it in range(ctx.n(300, 4000)):
+            branch = r.choice(['cos0', 'sin0', 'general', 'general', 'general'])
+            phi = {'cos0': Fr(2), 'sin0': Fr(0)}.get(branch) if branch != 'general' else rq(-5, 5, (1, 2, 3))
+            if branch == 'general' and (phi == 0 or phi in (2, -2)):
+                phi = Fr(1, 3)
+            if branch == 'cos0' and r.random() < 0.5:
+                phi = Fr(-2)
+            rx, ry = Fr(r.randint(1, 6), r.choice([1, 2])), Fr(r.randint(1, 6), r.choice([1, 2]))
+            theta = Fr(r.randint(-180, 180))
+            delta = Fr(r.choice([-360, -300, -200, -90, -10, 10, 45, 90, 180, 270, 359, 360]))
+            if r.random() < 0.3:    # make one of the candidate parameters land exactly on 0 or 1 (the closed filter)
+                k = r.randint(-2, 2)
+                ang = F['atan'](-(Q(ry) / Q(rx)) * F['tan'](phi)) if branch == 'general' else (F['pi'] / 2 if branch == 'cos0' else Q(0))
+                theta = ((ang + F['pi'] * k) * (360 / (2 * F['pi']))).v - (delta if r.random() < 0.5 else 0)
+            arc = P.Arc.__new__(P.Arc)
+            arc.radius = QC(rx, ry)
+            arc.phi = Q(phi)
+            arc.rot_matrix = QC(rq(-2, 2), rq(-2, 2))       # read only through .real / .imag
+            arc.center = QC(rq(), rq())
+            arc.theta, arc.delta = Q(theta), Q(delta)
+            arc.rotation = 0.0
+            arc.start, arc.end = QC(rq(), rq()), QC(rq(), rq())
+            args = [arc.start.real, arc.start.imag, arc.end.real, arc.end.imag, arc.center.real, arc.center.imag, rx, ry, phi,
+                    arc.rot_matrix.real, arc.rot_matrix.imag, theta, delta]
+            lines.append('arcbbox ' + ' '.join(qstr(Q(x) if not isinstance(x, Q) else x) for x in args))
+            try:
+                bb = P.Arc.bbox(arc)
+                impl.append(' '.join(qstr(x) for x in bb))
+            except Exception as e:
+                impl.append('raise ' + type(e).__name__)
+            c.count(branch)
+            # distribution: how many critical parameters passed the closed filter, and whether one sat exactly on an end
+            ax = F['atan'](-(Q(ry) / Q(rx)) * F['tan'](phi)) if branch == 'general' else (F['pi'] / 2 if branch == 'cos0' else Q(0))
+            tx = [((ax + F['pi'] * k) * (360 / (2 * F['pi'])) - Q(theta)) / Q(delta) for k in range(-4, 5)]
+            c.count('x candidates passing 0<=t<=1: %d' % sum(1 for t in tx if 0 <= t <= 1))
+            if any(t == 0 or t == 1 for t in tx):
+                c.count('x candidate exactly on an end')
+    finally:
+        P.cos, P.sin, P.pi, _math.atan, _math.tan = saved
+    model = [m.strip() for m in common.driver(lines)]
+    c.compare(lines, model, impl)
+    return c
 
 
 def correspond(ctx):
@@ -195,7 +270,7 @@ def correspond(ctx):
         impl.append(' '.join(_fr(Fr(b)) for b in P.Path(*segs).bbox()))
     c2.count('paths', len(lines))
     c2.compare(lines, [m.strip() for m in common.driver(lines)], impl)
-    return [c, c2]
+    return [c, c2, _correspond_arc(ctx)]
 
 
 def sample(ctx, budget=1.0, hint=None, broken=None):
